@@ -811,6 +811,8 @@ class PDFDocument:
             if settings.STRICT:
                 raise PDFSyntaxError("N is not defined: %r" % stream)
             n = 0
+        if not isinstance(n, int):
+            raise PDFSyntaxError("N is not an integer: %r" % stream)
         parser = PDFStreamParser(stream.get_data())
         parser.set_document(self)
         objs: List[object] = []
